@@ -40,7 +40,7 @@ COMPONENTS = {
     "stub": ["SimEvaluator", "sim/scripted optimizer", "simwrap recorder", "sim/inject sampler"],
 }
 PROBES = ["all_failed_gradient_checked", "inner_result_changes_between_runs", "relative_on_unbounded_fixed_rejected", "rows_checked", "results_checked", "gradient_zero_checked", "fixed_variable_present", "all_free_mask", "single_free_mask",
-          "nested_inner_result_delivered", "nested_rows_checked", "backend_sees_free_only", "real_backend", "several_samplers",
+          "nested_inner_result_delivered", "nested_rows_checked", "step_run_again_without_nested_plan", "backend_sees_free_only", "real_backend", "several_samplers",
           "with_variable_transform", "perturbed_rows_checked", "multi_step"]
 REAL = ["slsqp", "nelder-mead", "differential_evolution"]
 
@@ -170,6 +170,11 @@ def generate(seed: int, index: int, tier: str) -> dict:
         scn["plan"]["steps"] = [{"kind": "optimizer", "cfg": 0,
                                  "nested": {"steps": [{"kind": "optimizer", "cfg": 1}], "recorders": ["a"],
                                             "trackers": [{"what": rng.choice(["best", "last"]), "tol": None, "sources": [0]}]}}]
+        if rng.random() < 0.35:
+            # the user runs the same step object once more, this time as a plain optimization without a nested
+            # plan: nothing of the first run's nested optimization may take part in it
+            scn["plan"]["steps"].append({"kind": "optimizer", "cfg": 0, "same_as": 0})
+            scn["rerun_plain"] = True
     scn["stratum"] = ["scripted", "multi-step", "real", "nested"][family]
     return scn
 
@@ -224,11 +229,21 @@ def execute(scn: dict) -> dict:
         outer_requests = [b for b in ctx.backend_log if b.get("ev") == "request" and b.get("config") is outer_cfg_obj]
     inner_run_no = 0
     outer_fixed_timeline = []  # (event number from which it holds, values on ~mask0 in user domain)
+    outer_runs = 0
     for info in order:
         meta = ctx.step_meta[info["source"]]
         raw = cfgs[meta["cfg"]]
         mask = model.mask_of(raw)
         info["mask"] = mask
+        if meta["level"] == 0:
+            info["outer_run"] = outer_runs
+            outer_runs += 1
+            if info["outer_run"] == 1:
+                probe("step_run_again_without_nested_plan")
+        elif scn.get("rerun_plain") and outer_runs >= 2:
+            viol.append({"clause": "nested-optimization-of-earlier-run-ran-again", "sig": {},
+                         "detail": f"event {info['start_event']}: an inner step started during the second run of the step, "
+                                   "which was given no nested optimization"})
         if meta["level"] == 0:
             sspec = top_steps[info["source"]] if info["source"] < len(top_steps) else {}
             v = sspec.get("variables")
@@ -277,7 +292,7 @@ def execute(scn: dict) -> dict:
             continue
         meta = ctx.step_meta[info["source"]]
         exp = info["expected"]
-        if meta["level"] == 0 and family == 3:
+        if meta["level"] == 0 and family == 3 and info.get("outer_run", 0) == 0:
             # outer rows: start values until an inner result was delivered, then that result's values.
             # find the most recent inner delivery before this call: calls are ordered like events; use batch ids
             delivered = [v for (n, v) in outer_fixed_timeline if _event_before_call(ctx, n, c.k)]
